@@ -3,7 +3,7 @@ HOOKS = {
     "guard": "BITCOIN_VERIF_HOOKS",
     "enable": "bin/configure.sh passes -DBITCOIN_VERIF_HOOKS via APPEND_CPPFLAGS to the san/tsan build trees under /verif/build; /repo/_build never defines it",
     "baseline_off_cmd": "cmake --build /repo/_build -j16 && ctest --test-dir /repo/_build -j8 --timeout 900",
-    "source_commits": [],
+    "source_commits": ["b80b6ad"],
     "add_only": True,
 }
 ENGINES = [
